@@ -7,6 +7,8 @@ from mc import env  # noqa: E402
 
 env.ensure_vendor()
 
+import scipp.constants  # noqa: E402,F401 - hp reads sc.constants
+
 from ref import hp, inelastic as ie  # noqa: E402
 
 mpf = hp.mpf
